@@ -463,6 +463,10 @@ class ActionLink(Action):
         for action in [a for a in parser._actions if isinstance(a, ActionTypeHint) and hasattr(a, "sub_add_kwargs")]:
             for key in action.sub_add_kwargs.get("linked_targets", []):
                 del_target_key(f"{action.dest}.init_args.{key}")
+                parent = cfg.get(action.dest)
+                for item in parent if isinstance(parent, list) else []:
+                    if isinstance(item, Namespace):
+                        item.pop(f"init_args.{key}", None)
 
         with _ActionSubCommands.not_single_subcommand():
             subcommands, subparsers = _ActionSubCommands.get_subcommands(parser, cfg, fail_no_subcommand=False)
